@@ -163,6 +163,16 @@ def handleDegen : P String := do
       ("clustering.w0", ex0 .result multi),
       ("clustering.w1", if multi then (if s.edgesHaveWeight then "E12" else "E12/8") else "*"),
       ("eigenvector.w0", ex0 .result multi), ("eigenvector.w1", ex0 .result multi) ]
-    pure (pFields "m." m ++ "|" ++ pFields "s." sf)
+    -- negative weights (representable; the shortest-path functions answer `ContradictoryPaths` or a value, never a panic): the
+    -- weighted forms of the other algorithms are only specified for positive weights and are not called by the harness
+    let negw := s.allEdges.any fun e => match e.w with | some x => x < 0 | none => false
+    let skipNeg := ["clustering_some.w1", "average_clustering_some.w1", "betweenness.w1", "closeness.w1", "clustering.w1",
+      "average_clustering.w1", "modularity.w1", "eigenvector.w1", "louvain_partitions.w1", "louvain_communities.w1"]
+    let anyOutcome := ["single_source.w1", "single_source_target.w1", "all_pairs_target.w1", "involving.w1", "multi_source.w1"]
+    let adj (isSpec : Bool) (l : List (String × String)) : List (String × String) :=
+      if !negw then l else l.map fun kv =>
+        if skipNeg.contains kv.1 then (kv.1, "skipneg")
+        else if isSpec && anyOutcome.contains kv.1 then (kv.1, "*") else kv
+    pure (pFields "m." (adj false m) ++ "|" ++ pFields "s." (adj true sf))
 
 end Graphrs
